@@ -139,7 +139,7 @@ def execute(sc) -> Result:
         res.history_key = "|".join(str(x) for x in (
             sc["time"]["nsteps"], sc["output"]["period"], sc["output"].get("numrec", 0),
             sc["output"].get("layout", "sparse"), bool(sc["time"].get("reversed")),
-            bool(sc["output"].get("pvars")))) + "|" + abstract_history(run)
+            bool(sc["output"].get("pvars")))) + "|" + abstract_history(run, sc)
         res.nontrivial = True
         v, _ = crash_violation(ID, run, promises_completion=True)
         if v is not None:
